@@ -220,6 +220,8 @@ def task(args):
                 judge_doc(env, fmt, text, res, "generated")
                 for k in range(2):
                     judge_doc(env, fmt, docgen.corrupt(r, text), res, "corrupted")
+                if c % 2 == 0:
+                    judge_doc(env, fmt, docgen.corrupt_bytes(r, text.encode("utf-8", "surrogatepass")), res, "invalid-utf8")
                 if c < 1 and idx < 3:
                     res.sample({"format": fmt, "text": text[:300]})
         elif kind == "raw":
